@@ -221,10 +221,14 @@ def build():
                                 sequence_number=ctx.int(f"r{i}_seq", 0, 1000), purpose_id=sid, remote_node_id=REMOTE_ID,
                                 goodness=ctx.int(f"r{i}_goodness", 0, 1000), bell_state=ctx.enum(f"r{i}_bell", BellState))
 
-    def mk_keep_results(role):
+    def mk_keep_results(role, hw="generic"):
         def f(ctx):
             n = ctx.choice("number", [1, 2, 3])
-            conn, ex, epr, subs, sid = _mk(ctx, sock_id=4)
+            if hw == "nv":
+                from netqasm.sdk.build_types import NVHardwareConfig
+                conn, ex, epr, subs, sid = _mk(ctx, sock_id=4, hardware_config=NVHardwareConfig(5), max_qubits=5)
+            else:
+                conn, ex, epr, subs, sid = _mk(ctx, sock_id=4)
             creator = role == "create"
             if creator:
                 qubits, results = ctx.call(epr.create_keep_with_info, number=n)
@@ -233,8 +237,15 @@ def build():
             _flush(ctx, conn)
             resps = [_resp_k(ctx, i, sid, creator) for i in range(n)]
 
+            sent = []
+
             def on_wait(k):
-                if k == 0:
+                if hw == "nv":
+                    # one communication qubit: the program waits for one pair at a time
+                    if len(sent) < n:
+                        sent.append(len(sent))
+                        ctx.call(ex._handle_epr_response, resps[sent[-1]])
+                elif k == 0:
                     for r in resps:
                         ctx.call(ex._handle_epr_response, r)
             drive(ctx, ex, subs[0], on_wait)
@@ -258,6 +269,8 @@ def build():
         return f
     R.add("results[create_keep_with_info]", kind="lia", samples=30, max_paths=4000)(mk_keep_results("create"))
     R.add("results[recv_keep_with_info]", kind="lia", samples=30, max_paths=4000)(mk_keep_results("recv"))
+    R.add("results[create_keep_with_info, NV hardware]", kind="lia", samples=30, max_paths=4000)(mk_keep_results("create", "nv"))
+    R.add("results[recv_keep_with_info, NV hardware]", kind="lia", samples=30, max_paths=4000)(mk_keep_results("recv", "nv"))
 
     def mk_measure_results(role):
         def f(ctx):
